@@ -344,3 +344,152 @@ Proof.
   inversion H; subst. split; [eapply final_restore; eauto|]. split; assumption.
 Qed.
 End Loop.
+
+(* ---------------------------------------------------------------- consequences, in the words of the property *)
+Lemma iterate_plain_body_ok : forall O w, body_ok (so O) (iterate_plain O w).
+Proof.
+  intros O w s1 b s2 H3 E. unfold iterate_plain in E.
+  destruct (iterate_spec O w no_body (no_body_ok _) s1 b s2 H3 E) as [R _]. exact R.
+Qed.
+
+(* what a dump position shows during a yield *)
+Definition shown {B} (y : yielded B) (p : nat) : bool := nth p (tk (y_st y)) false.
+
+Lemma partition_facts : forall B (O : sobs) w (body : st -> res (B * st)) s ys sf,
+  body_ok (so O) body -> Inv3 (so O) s -> iterate O w body s = Ok (ys, sf) ->
+  (* the items are the indices present in the selection, each once, in increasing order *)
+  map y_index ys = indices_of (it_field w) (so O) (tk s) /\ StronglySorted Z.lt (map y_index ys)
+  (* a dump is shown by an item iff it was selected and belongs to the item *)
+  /\ (forall y p, In y ys -> shown y p = nth p (tk s) false &&
+        match nth_error (o_dumps (so O)) p with Some d => it_field w d =? y_index y | None => false end)
+  (* frequency and corrprod selection unchanged while iterating *)
+  /\ (forall y, In y ys -> fk (y_st y) = fk s /\ bk (y_st y) = bk s)
+  (* union: every selected dump is shown by the item of its index *)
+  /\ (forall p d, nth_error (o_dumps (so O)) p = Some d -> nth p (tk s) false = true ->
+        exists y, In y ys /\ y_index y = it_field w d /\ shown y p = true)
+  (* disjoint: a dump is shown by one item only *)
+  /\ (forall y y' p, In y ys -> In y' ys -> shown y p = true -> shown y' p = true -> y_index y = y_index y').
+Proof.
+  intros B O w body s ys sf HB H3 H.
+  destruct (iterate_spec O w body HB s ys sf H3 H) as (_ & Hmap & Hall).
+  rewrite Forall_forall in Hall.
+  assert (Hs : forall y p, In y ys -> shown y p = nth p (tk s) false &&
+        match nth_error (o_dumps (so O)) p with Some d => it_field w d =? y_index y | None => false end).
+  { intros y p Hy. destruct (Hall y Hy) as (_ & T & _). unfold shown. rewrite T, nth_mand, nth_fmask. reflexivity. }
+  split; [exact Hmap|]. split; [rewrite Hmap; apply sort_uniq_sorted|]. split; [exact Hs|].
+  split; [intros y Hy; destruct (Hall y Hy) as (_ & _ & F & Bk & _); auto|]. split.
+  - intros p d Hd Hp.
+    assert (Hin : In (it_field w d) (map y_index ys)).
+    { rewrite Hmap. unfold indices_of. apply sort_uniq_In. apply in_map. apply kept_dumps_In. exists p; auto. }
+    apply in_map_iff in Hin. destruct Hin as [y [Ey Hy]]. exists y. split; [exact Hy|]. split; [exact Ey|].
+    rewrite (Hs y p Hy), Hp, Hd, Ey. simpl. apply Z.eqb_refl.
+  - intros y y' p Hy Hy' S1 S2. rewrite (Hs y p Hy) in S1. rewrite (Hs y' p Hy') in S2.
+    apply andb_true_iff in S1. apply andb_true_iff in S2. destruct S1 as [_ S1]. destruct S2 as [_ S2].
+    destruct (nth_error (o_dumps (so O)) p); [|discriminate].
+    apply Z.eqb_eq in S1. apply Z.eqb_eq in S2. congruence.
+Qed.
+
+(* the sensors indexed by event number agree with the per-dump sensors: the name of item i is the state / label of
+   every dump whose index is i (holds for every segmentation produced by the format classes, see seg_names_ok) *)
+Definition names_ok (O : sobs) (w : which) : Prop :=
+  forall d, In d (o_dumps (so O)) -> name_of O w (it_field w d) = Some (namefield w d).
+
+Lemma yield_values : forall B (O : sobs) w (body : st -> res (B * st)) s ys sf,
+  body_ok (so O) body -> Inv3 (so O) s -> iterate O w body s = Ok (ys, sf) ->
+  forall y, In y ys ->
+  (* the yielded state / label is that of every dump shown *)
+  (names_ok O w -> forall p d, nth_error (o_dumps (so O)) p = Some d -> shown y p = true -> y_name y = namefield w d)
+  (* the yielded target is the lowest-numbered target among the dumps shown ... *)
+  /\ (exists p d, nth_error (o_dumps (so O)) p = Some d /\ shown y p = true /\ d_target d = y_target y)
+  /\ (forall p d, nth_error (o_dumps (so O)) p = Some d -> shown y p = true -> y_target y <= d_target d)
+  (* ... hence THE target of the dumps shown whenever they share one (every scan of a well-formed observation) *)
+  /\ (forall t, (forall p d, nth_error (o_dumps (so O)) p = Some d -> shown y p = true -> d_target d = t) ->
+        y_target y = t).
+Proof.
+  intros B O w body s ys sf HB H3 H y Hy.
+  destruct (partition_facts B O w body s ys sf HB H3 H) as (_ & _ & Hs & _).
+  destruct (iterate_spec O w body HB s ys sf H3 H) as (_ & _ & Hall).
+  rewrite Forall_forall in Hall. destruct (Hall y Hy) as (_ & _ & _ & _ & _ & _ & Hn & [rest Ht] & _).
+  assert (Hin : In (y_target y) (map d_target (kept_dumps (so O) (tk (y_st y))))).
+  { apply sort_uniq_In. unfold indices_of in Ht. rewrite Ht. left; reflexivity. }
+  assert (Hex : exists p d, nth_error (o_dumps (so O)) p = Some d /\ shown y p = true /\ d_target d = y_target y).
+  { apply in_map_iff in Hin. destruct Hin as [d [Ed Hd]]. apply kept_dumps_In in Hd. destruct Hd as [p [A Bp]].
+    exists p, d. auto. }
+  assert (Hmin : forall p d, nth_error (o_dumps (so O)) p = Some d -> shown y p = true -> y_target y <= d_target d).
+  { intros p d Hd Hp. apply (sorted_hd_min _ rest). rewrite <- Ht. apply sort_uniq_sorted.
+    rewrite <- Ht. apply sort_uniq_In. apply in_map. apply kept_dumps_In. exists p; auto. }
+  split; [|split; [exact Hex|split; [exact Hmin|]]].
+  - intros Hok p d Hd Hp. rewrite (Hs y p Hy), Hd in Hp. apply andb_true_iff in Hp. destruct Hp as [_ Hp].
+    apply Z.eqb_eq in Hp. specialize (Hok d (nth_error_In _ _ Hd)). rewrite Hp, Hn in Hok. congruence.
+  - intros t Ht'. destruct Hex as (p & d & Hd & Hp & Et). rewrite <- Et. eapply Ht'; eauto.
+Qed.
+
+(* nested use: the inner generator, run to exhaustion inside every yield of the outer one *)
+Lemma nested_facts : forall (O : sobs) outer inner s ys sf, Inv3 (so O) s ->
+  iterate_nested O outer inner s = Ok (ys, sf) ->
+  (Inv3 (so O) sf /\ same_sel sf s)
+  /\ forall y, In y ys -> exists s2, iterate_plain O inner (y_st y) = Ok (y_body y, s2)
+                                     /\ Inv3 (so O) (y_st y) /\ same_sel s2 (y_st y).
+Proof.
+  intros O outer inner s ys sf H3 H. unfold iterate_nested in H.
+  destruct (iterate_spec O outer _ (iterate_plain_body_ok O inner) s ys sf H3 H) as (R & _ & Hall).
+  split; [exact R|]. intros y Hy. rewrite Forall_forall in Hall.
+  destruct (Hall y Hy) as (I1 & _ & _ & _ & _ & _ & _ & _ & [s2 E2]). exists s2. split; [exact E2|]. split; [exact I1|].
+  exact (proj2 (iterate_plain_body_ok O inner _ _ _ I1 E2)).
+Qed.
+
+(* ---------------------------------------------------------------- non-vacuity: a concrete observation *)
+Lemma names_ok_dec : forall O w,
+  forallb (fun d => match name_of O w (it_field w d) with Some n => n =? namefield w d | None => false end)
+          (o_dumps (so O)) = true -> names_ok O w.
+Proof.
+  intros O w H d Hd. rewrite forallb_forall in H. specialize (H d Hd).
+  destruct (name_of O w (it_field w d)); [|discriminate]. apply Z.eqb_eq in H. congruence.
+Qed.
+
+(* 12 dumps; activity slew(0-2) track(3-4) slew(5-6) scan(7-8) stop(9-11); labels 'track'@0, ''@4, 'raster'@7;
+   targets A@0, B@5, A@9; segmented by the v4 pipeline *)
+Definition ex_params : params := {| p_slew := 0; p_stop := 3; p_empty := 0; p_nothing := 90 |}.
+Definition ex_seg : option seg :=
+  segment V4 ex_params (Categorical.make Z.eqb [0; 1; 0; 2; 3] [0; 3; 5; 7; 9; 12]%nat)
+          (Categorical.make Z.eqb [1; 0; 2] [0; 4; 7; 12]%nat) (Categorical.make Z.eqb [0; 1; 0] [0; 5; 9; 12]%nat).
+Definition ex_base : obs :=
+  {| o_dumps := map (fun p => {| d_ts := 4 * Z.of_nat p; d_scan := 0; d_state := 0; d_cscan := 0; d_label := 0; d_target := 0 |})
+                    (seq 0 12);
+     o_half := 2; o_targets := [{| t_names := [0]; t_tags := [1] |}; {| t_names := [1]; t_tags := [2] |}];
+     o_freqs := [10; 14; 18]; o_halfw := 2; o_cps := [((0, 0), (0, 0)); ((0, 0), (1, 0))] |}.
+Definition ex_O : sobs :=
+  match ex_seg with Some g => sobs_of_seg g ex_base | None => {| so := ex_base; so_state := Categorical.mk [] [] []; so_label := Categorical.mk [] [] [] |} end.
+(* select(dumps=slice(0, 10)); select(dumps=slice(5, 12), reset=''): criteria stacked on one keyword *)
+Definition ex_calls : list kwargs :=
+  [[("dumps"%string, VIdx (IxSlice (Some 0) (Some 10) None))];
+   [("dumps"%string, VIdx (IxSlice (Some 5) (Some 12) None)); ("reset"%string, VStr "")]].
+Definition ex_s : st :=
+  match run (so ex_O) (init (so ex_O)) ex_calls with Ok s => s | Err _ => init (so ex_O) end.
+Definition positions (m : list bool) : list Z := map fst (filter snd (combine (zpos (List.length m)) m)).
+Definition summary {B C} (f : B -> C) (y : yielded B) :=
+  (y_index y, y_name y, y_target y, positions (tk (y_st y)), f (y_body y)).
+
+Lemma ex_facts :
+  reachable_nd (so ex_O) ex_s /\ positions (tk ex_s) = [5; 6; 7; 8; 9]
+  /\ map d_scan (o_dumps (so ex_O)) = [0; 0; 0; 1; 1; 2; 2; 3; 3; 4; 4; 4]
+  /\ map d_cscan (o_dumps (so ex_O)) = [0; 0; 0; 0; 0; 0; 0; 1; 1; 1; 1; 1]
+  /\ map d_target (o_dumps (so ex_O)) = [0; 0; 0; 0; 0; 1; 1; 1; 1; 0; 0; 0]
+  /\ names_ok ex_O WScans /\ names_ok ex_O WCompscans
+  /\ exists ys sf, iterate_nested ex_O WCompscans WScans ex_s = Ok (ys, sf)
+       /\ map (summary (map (summary (fun _ : unit => tt)))) ys =
+          [(0, 1, 1, [5; 6], [(2, 0, 1, [5; 6], tt)]);
+           (1, 2, 0, [7; 8; 9], [(3, 2, 1, [7; 8], tt); (4, 3, 0, [9], tt)])]
+       /\ positions (tk sf) = [5; 6; 7; 8; 9] /\ fk sf = fk ex_s /\ bk sf = bk ex_s.
+Proof.
+  split.
+  - eapply rnd_step; [eapply rnd_step; [apply rnd_init| |]| |].
+    + instantiate (1 := nth 0 ex_calls []). vm_compute. repeat constructor; simpl; intuition discriminate.
+    + vm_compute. reflexivity.
+    + instantiate (1 := nth 1 ex_calls []). vm_compute. repeat constructor; simpl; intuition discriminate.
+    + vm_compute. reflexivity.
+  - split; [vm_compute; reflexivity|]. split; [vm_compute; reflexivity|]. split; [vm_compute; reflexivity|].
+    split; [vm_compute; reflexivity|].
+    split; [apply names_ok_dec; vm_compute; reflexivity|]. split; [apply names_ok_dec; vm_compute; reflexivity|].
+    eexists. eexists. split; [vm_compute; reflexivity|]. vm_compute. repeat split; reflexivity.
+Qed.
